@@ -48,6 +48,25 @@ Definition eq_dvs (a b : list (nat * list nat)) : bool :=
 
 Definition is_sorted_by (key : nat -> nat) (l : list nat) : bool := eq_ln (map key (sort_by_key key l)) (map key l).
 
+(* [written] is the concatenation of the [inputs] taken in some order: the compactor of an unkeyed table
+   concatenates the chosen row-sets in the order its selection produced them (a hash map's), which
+   carries no meaning *)
+Fixpoint is_prefix (a b : list nat) : bool :=
+  match a, b with [] , _ => true | x :: a', y :: b' => Nat.eqb x y && is_prefix a' b' | _, [] => false end.
+Fixpoint drop_nth {A} (k : nat) (l : list A) : list A :=
+  match l, k with [], _ => [] | _ :: r, 0 => r | x :: r, S k' => x :: drop_nth k' r end.
+Fixpoint concat_some_order (fuel : nat) (written : list nat) (inputs : list (list nat)) : bool :=
+  match fuel with
+  | 0 => false
+  | S f =>
+      match inputs with
+      | [] => match written with [] => true | _ => false end
+      | _ => existsb (fun k => let x := nth k inputs [] in
+                               if is_prefix x written then concat_some_order f (skipn (length x) written) (drop_nth k inputs) else false)
+                     (seq 0 (length inputs))
+      end
+  end.
+
 (** one observed operation on the model; the boolean says whether what the operation reported /
     wrote is what the model says *)
 Fixpoint run_op (pk : bool) (key : nat -> nat) (o : xop) (t : disk_table) : disk_table * bool :=
@@ -60,9 +79,9 @@ Fixpoint run_op (pk : bool) (key : nat -> nat) (o : xop) (t : disk_table) : disk
       let input := map (rs_visible t) (filter (fun rs => sel (rs_id rs)) (d_rowsets t)) in
       (disk_compact sel (fun _ => written) t,
        (* the written rows are a rearrangement of the visible rows read; for a keyed table it is
-          in key order, otherwise it is the concatenation in row-set order *)
+          in key order, otherwise it is the concatenation of the row-sets read, in some order *)
        eq_ln (sortn written) (sortn (concat input)) &&
-       (if pk then is_sorted_by key written else eq_ln written (concat input)) &&
+       (if pk then is_sorted_by key written else concat_some_order (S (length input)) written (filter (fun x => negb (Nat.eqb (length x) 0)) input)) &&
        (2 <=? length chosen))
   | XReopen => (disk_reopen (d_next t) t, true)
   | XIdle => (t, true)
